@@ -271,6 +271,10 @@ def execute(bindir, cases, part, tag='c01', post=None):
             if c['layer'] in ('deep', 'p2sh', 'rand', 'limit', 'succ') or (c['layer'].startswith('exh') and zlib.crc32(c['id'].encode()) % 7 == 0):
                 c['cont'] = True
                 hc.append((c['id'] + '/c', case_cmds(c['id'] + '/c', c['script'], c['stack'], c['flags'], c['sv'], tail=('C',), extra=extra)))
+            # "hovering" twin: every step is taken, taken back and taken again - the trace must be the same
+            if c['layer'] in ('deep', 'limit', 'succ', 'p2sh') and zlib.crc32(c['id'].encode()) % 4 == 1:
+                c['hover'] = True
+                hc.append((c['id'] + '/h', case_cmds(c['id'] + '/h', c['script'], c['stack'], c['flags'], c['sv'], tail=('CSH',), extra=extra)))
         events, crashes, hangs = run_harness_cases(bindir, hc, wd)
         bycase = {c['id']: c for c in cases}
         for cr in crashes:
@@ -284,6 +288,12 @@ def execute(bindir, cases, part, tag='c01', post=None):
             evs = parse_events(events.get(c['id'], []))
             cevs = parse_events(events.get(c['id'] + '/c', [])) if c.get('cont') else None
             judge(c, evs, part, cevs)
+            if c.get('hover'):
+                hv = parse_events(events.get(c['id'] + '/h', []))
+                before = len(part.violations)
+                judge(dict(c, id=c['id'] + '/h'), [(k, e) for k, e in hv if k != 'HV'], part, None)
+                part.violations[before:] = [(k + ':after-rewind', w) for k, w in part.violations[before:]]
+                part.count('hover_runs', 'n')
             if post:
                 post(c, evs, part)
     finally:
